@@ -34,7 +34,7 @@ COMPONENTS = {
 }
 BUDGET = {"quick": {"off_runs": 500, "on_runs": 80, "timeout": 400, "hashseed_runs": 60}, "thorough": {"budget_s": 900, "hashseed_runs": 1}}
 
-QUICK_SOURCES = ["qh", "mpas", "band", "band2", "mix", "cube", "mixe", "icox"]
+QUICK_SOURCES = ["qh", "mpas", "band", "band2", "mix", "cube", "mixe", "icox", "mixr"]
 THOROUGH_SOURCES = QUICK_SOURCES + ["ico", "cap", "mpasd", "exo"]
 
 CATALOGUE = {
@@ -45,7 +45,8 @@ CATALOGUE = {
     "band": {"kind": "mesh", "mesh": "band", "params": {"nx": 8, "ny": 3}, "prov": "topology"},
     "band2": {"kind": "mesh", "mesh": "band", "params": {"nx": 8, "ny": 3}, "prov": "topology"},
     "mix": {"kind": "mesh", "mesh": "mix", "params": {"lon_c": 176.0}, "prov": "topology", "dialect": {"fill": -1, "start": 1}},
-    "mixe": {"kind": "mesh", "mesh": "mix", "params": {"lon_c": -120.0, "lat_c": -30.0}, "variant": 2, "prov": "topology", "dialect": {"fill": -1, "extra": ["edge_nodes", "edge_lonlat", "face_xyz"], "xyz_scale": 2.0}},
+    "mixe": {"kind": "mesh", "mesh": "mix", "params": {"lon_c": -120.0, "lat_c": -30.0}, "variant": 2, "prov": "topology", "dialect": {"fill": -1, "extra": ["edge_nodes", "edge_lonlat", "face_xyz"], "xyz_scale": 2.0, "edge_flip": True}},
+    "mixr": {"kind": "mesh", "mesh": "mix", "params": {"lon_c": 178.0, "lat_c": 20.0}, "variant": 1, "prov": "topology", "dialect": {"fill": -1, "extra": ["edge_nodes"], "edge_flip": True}, "reencode": ["face_edge_connectivity", "face_lon"], "subset": [5, 0, 3, 1, 4]},
     "cube": {"kind": "mesh", "mesh": "cube", "params": {"n": 2}, "variant": 5, "prov": "ugrid_file", "dialect": {"lon360": True, "dtype": "int32", "start": 1}},
     "ico": {"kind": "mesh", "mesh": "ico", "params": {}, "prov": "vertices_xyz"},
     "icox": {"kind": "mesh", "mesh": "ico", "params": {}, "variant": 1, "prov": "vertices_xyz", "dialect": {"xyz_scale": 6371.0}},
@@ -154,6 +155,7 @@ def menu(sid):
         {"op": "isel", "dim": "n_face", "idx": [0]},
         {"op": "isel", "dim": "n_face", "idx": [2], "scalar": True},
         {"op": "isel", "dim": "n_face", "idx": [3, 0, 1]},
+        {"op": "isel", "dim": "n_face", "idx": [7, 3, 0, 15, 1, 2]},
         {"op": "isel", "dim": "n_face", "idx": [], "all": True},
         {"op": "isel", "dim": "n_node", "idx": [1]},
         {"op": "isel", "dim": "n_node", "idx": [7, 0, 3]},
@@ -161,7 +163,7 @@ def menu(sid):
         {"op": "isel", "dim": "n_edge", "idx": [2], "scalar": True},
     ]
     sa = []
-    for dim, idx in (("n_face", [3, 0, 1, 2]), ("n_node", [5, 1]), ("n_edge", [0, 4, 2])):
+    for dim, idx in (("n_face", [7, 3, 0, 15, 1, 2]), ("n_node", [5, 1]), ("n_edge", [0, 4, 2])):
         for a in ("edge_face_distances", "edge_node_distances", "face_areas", "n_edge", "face_edge_connectivity", "antimeridian_face_indices", "hole_edge_indices", "face_lon", "edge_x"):
             sa.append({"op": "isel_attr", "dim": dim, "idx": idx, "name": a})
     m["isel_attr"] = sa
@@ -183,6 +185,45 @@ def menu(sid):
     m["xsec"] = x
     m["misc"] = [{"op": "dual"}, {"op": "copy"}, {"op": "validate"}]
     return m
+
+
+# related operations share caches and side tables: after an operation the next one on the same
+# grid is drawn from the same family with some probability (revisits are where stale state shows)
+FAMILY = {
+    "areas": ["areas", "attr:face_areas", "attr:face_jacobian"],
+    "plot": ["gdf", "polyc", "linec", "attr:antimeridian_face_indices", "isel_attr:antimeridian_face_indices"],
+    "edges": ["attr:edge_node_connectivity", "attr:face_edge_connectivity", "attr:edge_face_connectivity", "attr:n_edge", "attr:edge_lon", "attr:edge_x", "attr:edge_node_distances", "attr:edge_face_distances", "attr:hole_edge_indices", "attr:edge_node_z", "isel_attr:edge_face_distances", "isel_attr:face_edge_connectivity", "xsec"],
+    "trees": ["tree", "subset"],
+    "coords": ["attr:node_lon", "attr:node_x", "attr:face_lon", "attr:face_x", "attr:face_lat", "attr:node_z", "isel_attr:face_lon"],
+}
+
+
+def family_of(op):
+    n = op["op"]
+    key = n
+    if n == "attr":
+        key = "attr:" + op["name"]
+    elif n == "isel_attr":
+        key = "isel_attr:" + op["name"]
+    elif n in ("total_area",):
+        key = "areas"
+    elif n in ("bbox", "bcircle", "knn"):
+        key = "subset"
+    elif n in ("faces_at_lat", "edges_at_lat"):
+        key = "xsec"
+    for fam, members in FAMILY.items():
+        if key in members:
+            return fam
+    return None
+
+
+def family_ops(menus_sid, fam):
+    out = []
+    for cls, lst in menus_sid.items():
+        for o in lst:
+            if family_of(o) == fam:
+                out.append(o)
+    return out
 
 
 CLASSES = ["attr", "fail_attr", "introspect", "areas", "encode", "gdf", "polyc", "linec", "tree", "chunk", "isel", "isel_attr", "subset", "xsec", "misc", "eq"]
@@ -228,7 +269,11 @@ class History(Profile):
                 cur = rng.randrange(n_grids)
             h, sid = handles[cur], chosen[cur]
             cls = rng.choices(classes, weights=[CLASS_WEIGHT[c] for c in classes])[0]
-            if cls == "eq":
+            prev = next((o for o in reversed(ops) if o.get("g") == h), None)
+            fam = family_of(prev) if prev else None
+            if fam and rng.random() < 0.3:
+                op = dict(rng.choice(family_ops(menus[sid], fam)))
+            elif cls == "eq":
                 op = {"op": "eq", "other": handles[rng.randrange(n_grids)]}
             else:
                 op = dict(rng.choice(menus[sid][cls]))
